@@ -9,6 +9,14 @@ between the setup stage and the status stage, lost status-stage handshakes (stat
 probe tokens at the old / new / previous address, bus resets (SE0 >= 5 us, or VBUS loss) at arbitrary points and
 GET_CONFIGURATION read-backs.  A spec-level model (address, configuration, pending request) is advanced by the host's
 own actions only; the spy registers are compared with it every cycle, the probe tokens compare it black-box.
+
+"Bus resets at arbitrary times" also covers the state of the device's own bus-state tracking when the reset arrives and
+the speed capability of the device: the V2 device is run both restricted to full speed (full_speed_only = 1) and
+high-speed capable (full_speed_only = 0: a reset starts the high-speed detection handshake, which is not simulated -- such a
+run ends with the reset), and a stratified handful of runs keeps the bus idle for > 3 ms so that the device suspends; the
+suspend is then ended by a bus reset, by a resume (K) or by a glitch followed by one of them.  Whether a long SE0 was a bus
+reset is decided from the line-state history the host itself produced (SE0 held for >= LONG_SE0 cycles, several times any
+detection threshold), never from the device's reset_detected output; only marginal SE0 lengths are left to the device.
 """
 
 import hashlib
@@ -17,7 +25,7 @@ from dsim.kernel import Violations
 from models import usb2
 from models.usb2 import UTMIHost
 from models.usb2_ctrl import Txn, StreamFeeder, setup_bytes, is_data
-from engines.usb2_device import device_bench, IDLE_INIT
+from engines.usb2_device import device_bench, IDLE_INIT, CLOCK_HZ as CLOCKS
 
 PROPERTY = "C08"
 ENGINE = "usb2_device"
@@ -33,11 +41,16 @@ RULES = {
     "C08.old_address_until_commit": "while a SET_ADDRESS is in flight tokens at the old address are answered and tokens at the "
                                     "new address are not",
     "C08.address_in_effect": "tokens are answered iff they carry the address in effect (black-box probe tokens)",
-    "C08.reset_clears": "after a reported bus reset address and configuration are 0",
+    "C08.reset_clears": "after a reported bus reset address and configuration are 0; and once the host has held SE0 on the "
+                        "line for LONG_SE0 cycles (>= 20 us, a bus reset by the line-state history alone -- whether or not the "
+                        "device reports one, in whatever state (active, suspended) and speed capability it is) they are 0",
 }
 PROBES = ["other_ep_ack_while_pending", "status_retry_after_lost_ack", "reset_while_pending", "addr_value_gt_127",
           "probe_new_addr_before_commit", "probe_old_addr_after_commit", "commit_address", "commit_config",
-          "abandoned_request", "other_ep_ack_after_unacked_zlp", "get_config_readback"]
+          "abandoned_request", "other_ep_ack_after_unacked_zlp", "get_config_readback",
+          "long_se0_reset", "long_se0_reset_nonzero_state", "reset_hs_capable", "suspended_reached", "reset_while_suspended",
+          "reset_while_suspended_hs_capable", "reset_while_suspended_nonzero_state", "resume_from_suspend",
+          "traffic_after_suspend"]
 META = {
     "components_real": ["USBDevice", "USBControlEndpoint", "StandardRequestHandler", "USBRequestHandlerMultiplexer",
                         "USBSetupDecoder", "USBTokenDetector", "USBHandshakeDetector", "USBHandshakeGenerator",
@@ -48,17 +61,35 @@ META = {
     "assumptions": ["legal UTMI receive side; the host never transmits while the device transmits",
                     "the host idles >= 12 cycles after the ACK of a status stage (the change may take up to 8 cycles)",
                     "SET_ADDRESS/SET_CONFIGURATION are sent well-formed (bmRequestType 0x00, wIndex 0, wLength 0)",
-                    "a bus reset is what the device reports on reset_detected (SE0 >= 5 us or VBUS loss); no traffic during it",
-                    "after a bus reset the host starts with a new SETUP before it issues an EP0 IN token"],
+                    "SE0 shorter than LONG_SE0 cycles and VBUS loss are a bus reset iff the device reports one on reset_detected "
+                    "(marginal lengths); SE0 held for >= LONG_SE0 = 1200 cycles (20 us at 60 MHz, 100 us at 12 MHz; the "
+                    "time-compressed stand-in for the host's >= 10 ms reset, 4x / 8x the 5 us / 2.5 us detection thresholds) IS a "
+                    "bus reset, decided from the driven line state only; no traffic during it",
+                    "after a bus reset the host starts with a new SETUP before it issues an EP0 IN token",
+                    "a high-speed capable device (V2, full_speed_only = 0) starts the high-speed detection handshake on a reset; "
+                    "the handshake is not simulated: the run ends with the first bus reset (registers are observed on the spy pins)",
+                    "suspend = the line stays at J for > 180000 cycles (3 ms of the sequencer's constants); resume is time-"
+                    "compressed (K for 50..2000 cycles, a 2-low-speed-bit SE0, then J); the host sends nothing to a suspended device"],
     "rule": "6-30 host operations: SET_ADDRESS/SET_CONFIGURATION setup stages, status IN tokens with/without host ACK, EP1 IN "
             "transfers with/without ACK, probe tokens at current/pending/previous/foreign addresses, GET_CONFIGURATION, SOFs, bus "
-            "resets; timing variant, byte period, turnaround and gaps per run; ~15 % of the runs fault-free",
+            "resets (SE0 short / marginal / long, VBUS loss); timing variant, speed capability (V2: full_speed_only 1 or 0), byte "
+            "period, turnaround and gaps per run; ~15 % of the runs fault-free.  Stratified suspend runs (quick: 8, thorough: 1 in "
+            "300; grid V2-high-speed-capable / V2-full-speed-only / V1 x what ends the suspend): 1-3 episodes beginning with a clean "
+            "SET request, > 3 ms idle, then a long SE0 reset | a marginal SE0 | a resume, optionally after a sub-threshold SE0 "
+            "glitch; then (unless the device went into high-speed detection) more episodes, resets and a final probe",
 }
-TIERS = {"quick": {"runs": 2000, "wall": 90}, "thorough": {"runs": 36000, "wall": 900}}
+TIERS = {"quick": {"runs": 2000, "wall": 90, "shrink_budget": 64}, "thorough": {"runs": 36000, "wall": 900, "shrink_budget": 64}}
 
 DEV_CFG = {v: {"variant": v, "ep0_mps": 64, "endpoints": [{"kind": "stream_in", "ep": 1, "mps": 8}]} for v in ("V1", "V2")}
 SLACK = 8
 RESET_CYCLES = 300            # 5 us at the sequencer's 60 MHz constants
+LONG_SE0 = 1200               # SE0 held this long is a bus reset by the input history alone (20 us @ 60 MHz, 100 us @ 12 MHz)
+SUSPEND_CYCLES = 180000       # 3 ms at the sequencer's 60 MHz constants
+GLITCH_MAX = 100              # SE0 of <= 1.67 us: far below the 2.5 us minimum reset-detection time
+LINE_K = 0b10                 # full-speed K (resume signalling)
+SUSPEND_STRIDE = {"quick": 32, "thorough": 300}     # one suspend run per this many indices ...
+SUSPEND_COUNT = {"quick": 8, "thorough": 1 << 30}   # ... for the first so many strides
+SUSPEND_PHASE = 2             # position of the suspend run inside its stride (index 2: covered by selftest-determinism)
 
 
 # ------------------------------------------------------------------------------------------------
@@ -101,6 +132,53 @@ def _between(rng, ops, fault_free):
             ops.append({"op": "idle", "n": rng.randint(1, 80)})
 
 
+def _episode(rng, ops, fault_free, clean_set=False):
+    r = 0.0 if clean_set else rng.random()
+    if r < 0.72:
+        req = rng.choice(["addr", "addr", "cfg"])
+        ops.append({"op": "set", "req": req, "value": _value(rng, req)})
+        if not clean_set:
+            _between(rng, ops, fault_free)
+        q = 0.0 if clean_set else rng.random()
+        if fault_free or q < 0.62:
+            ops.append({"op": "status", "ack": True})
+        elif q < 0.85:
+            ops.append({"op": "status", "ack": False})            # lost handshake
+            _between(rng, ops, fault_free)
+            if rng.random() < 0.8:
+                ops.append({"op": "status", "ack": True})         # the host re-issues the status IN
+        # else: abandoned before the status stage
+        if rng.random() < 0.7:
+            ops.append({"op": "in", "ep": 1, "addr": rng.choice(["cur", "cur", "prev", "prev"]), "ack": rng.random() < 0.8})
+    elif r < 0.82:
+        ops.append({"op": "get_config"})
+    elif r < 0.92:
+        ops.append({"op": "in", "ep": 1, "addr": rng.choice(["cur", "prev", rng.randint(0, 127)]), "ack": rng.random() < 0.8})
+    else:
+        ops.append({"op": "idle", "n": rng.randint(1, 100)})
+
+
+def _reset_op(rng, suspended=False):
+    """ A bus-reset attempt: SE0 of a short / marginal / long duration, or a VBUS loss. """
+    kind = "se0" if suspended else rng.choice(["se0", "se0", "se0", "vbus"])
+    r = rng.random()
+    if kind == "se0" and r < 0.35:
+        n = rng.randint(LONG_SE0 + 100, LONG_SE0 + 1500)          # a bus reset by the line-state history alone
+    elif r < 0.85:
+        n = rng.randint(RESET_CYCLES + 10, RESET_CYCLES + 120)    # marginal: the device decides
+    else:
+        n = rng.randint(20, RESET_CYCLES - 40)                    # (mostly) too short to be a reset
+    return {"op": "reset", "kind": kind, "n": n}
+
+
+def _suspend_slot(tier, index):
+    """ the stratum number of a suspend run, or None """
+    stride = SUSPEND_STRIDE.get(tier, 300)
+    if index % stride != SUSPEND_PHASE or index // stride >= SUSPEND_COUNT.get(tier, 1 << 30):
+        return None
+    return index // stride
+
+
 def gen(rng, tier, index):
     cfg = {
         "variant": rng.choice(["V1", "V2"]),
@@ -112,39 +190,73 @@ def gen(rng, tier, index):
         "turn": rng.choice([1, 2, 3, 5, 9]),
         "rest": rng.choice([2, 4, 8, 20]),
     }
+    # speed capability: V1 is full-speed only by construction; V2 is high-speed capable unless full_speed_only is driven
+    cfg["fs_only"] = 0 if (cfg["variant"] == "V2" and rng.random() < 0.35) else 1
+    slot = _suspend_slot(tier, index)
+    if slot is not None:
+        return _gen_suspend(rng, tier, cfg, slot)
+    hs_capable = cfg["variant"] == "V2" and not cfg["fs_only"]
     fault_free = rng.random() < 0.15
     ops = []
     n_episodes = rng.randint(2, 6 if tier == "quick" else 10)
     for _ in range(n_episodes):
-        r = rng.random()
-        if r < 0.72:
-            req = rng.choice(["addr", "addr", "cfg"])
-            ops.append({"op": "set", "req": req, "value": _value(rng, req)})
-            _between(rng, ops, fault_free)
-            q = rng.random()
-            if fault_free or q < 0.62:
-                ops.append({"op": "status", "ack": True})
-            elif q < 0.85:
-                ops.append({"op": "status", "ack": False})            # lost handshake
-                _between(rng, ops, fault_free)
-                if rng.random() < 0.8:
-                    ops.append({"op": "status", "ack": True})         # the host re-issues the status IN
-            # else: abandoned before the status stage
-            if rng.random() < 0.7:
-                ops.append({"op": "in", "ep": 1, "addr": rng.choice(["cur", "cur", "prev", "prev"]), "ack": rng.random() < 0.8})
-        elif r < 0.82:
-            ops.append({"op": "get_config"})
-        elif r < 0.92:
-            ops.append({"op": "in", "ep": 1, "addr": rng.choice(["cur", "prev", rng.randint(0, 127)]), "ack": rng.random() < 0.8})
-        else:
-            ops.append({"op": "idle", "n": rng.randint(1, 100)})
+        _episode(rng, ops, fault_free)
+    terminal = False
     if not fault_free:
         # bus resets at arbitrary points (also between setup and status stage)
         for _ in range(rng.choice([0, 0, 1, 1, 2])):
-            kind = rng.choice(["se0", "se0", "se0", "vbus"])
-            n = rng.randint(RESET_CYCLES + 10, RESET_CYCLES + 120) if rng.random() < 0.8 else rng.randint(20, RESET_CYCLES - 40)
-            ops.insert(rng.randint(0, len(ops)), {"op": "reset", "kind": kind, "n": n})
-    # finish with a clean read-back and a probe
+            at = rng.randint(0, len(ops))
+            ops.insert(at, _reset_op(rng))
+            if hs_capable:
+                # the device answers a reset with the high-speed detection handshake (not simulated): the run ends here
+                del ops[at + 1:]
+                terminal = True
+                break
+    if not terminal:
+        # finish with a clean read-back and a probe
+        ops.append({"op": "in", "ep": 1, "addr": "cur", "ack": True})
+    return {"engine": ENGINE, "config": cfg, "ops": ops}
+
+
+def _gen_suspend(rng, tier, cfg, slot):
+    """ One of the few expensive runs in which the bus idles > 3 ms.  Stratified over
+        (timing variant / speed capability) x (what ends the suspend) so that every tier run covers the grid. """
+    klass = ("V2hs", "V1", "V2hs", "V2fs")[slot % 4]
+    cfg["variant"] = "V1" if klass == "V1" else "V2"
+    cfg["fs_only"] = 0 if klass == "V2hs" else 1
+    hs_capable = klass == "V2hs"
+    ops = []
+    _episode(rng, ops, False, clean_set=True)                         # the device leaves the default state ...
+    for _ in range(rng.randint(0, 2)):
+        _episode(rng, ops, False)                                     # ... and may have a request pending when the bus goes quiet
+    ops.append({"op": "suspend", "n": SUSPEND_CYCLES + rng.randint(10, 4000)})
+    if rng.random() < 0.25:
+        # a glitch far below every detection threshold; the bus returns to idle, the device stays suspended
+        ops.append({"op": "reset", "kind": "se0", "n": rng.randint(2, GLITCH_MAX)})
+        ops.append({"op": "idle", "n": rng.randint(1, 300)})
+    if slot % 3 != 2:
+        end = "long_reset"
+    elif slot % 6 == 2:
+        end = "resume"
+    else:
+        end = rng.choice(["resume", "marginal_reset", "marginal_reset"])
+    if end == "long_reset":
+        ops.append({"op": "reset", "kind": "se0", "n": rng.randint(LONG_SE0 + 100, LONG_SE0 + 1500)})
+    elif end == "marginal_reset":
+        # above the suspended-state threshold (2.5 us), below LONG_SE0: the device's report decides
+        ops.append({"op": "reset", "kind": "se0", "n": rng.randint(RESET_CYCLES // 2 + 10, LONG_SE0 - 100)})
+    else:
+        ops.append({"op": "resume", "n": rng.randint(50, 2000)})
+    if hs_capable and end != "resume":
+        return {"engine": ENGINE, "config": cfg, "ops": ops}          # high-speed detection follows: end of the run
+    # life goes on: new requests (after a reset: from address 0), probes at the previous address, more resets
+    for _ in range(rng.randint(1, 3)):
+        _episode(rng, ops, False)
+    if rng.random() < 0.5:
+        ops.append(_reset_op(rng))
+        if hs_capable:
+            return {"engine": ENGINE, "config": cfg, "ops": ops}
+        _episode(rng, ops, False)
     ops.append({"op": "in", "ep": 1, "addr": "cur", "ack": True})
     return {"engine": ENGINE, "config": cfg, "ops": ops}
 
@@ -180,6 +292,17 @@ class _Monitor:
         self.reset_edges = 0
         self._prev_reset = 0
         self.dead = False
+        self.se0_last = -1
+        self.se0_since = None      # first cycle of the SE0 the host is currently holding on the line (input history)
+        self.se0_note = {}         # context of that SE0 for messages / shapes
+        self.input_resets = 0      # SE0 periods that reached LONG_SE0 cycles
+        self.suspended_now = 0     # the device's own `suspended` output (coverage / messages only)
+
+    def se0(self, first, last, **note):
+        """ the host drives SE0 on the line in the cycles first..last """
+        self.se0_since = first
+        self.se0_last = last
+        self.se0_note = dict(note, edges_before=self.reset_edges)
 
     def open(self, reg, new, why):
         if self.exp[reg] == new:
@@ -199,6 +322,26 @@ class _Monitor:
     def observe(self, t, o):
         if self.dead:
             return True
+        self.suspended_now = o["suspended"]
+        if self.se0_since is not None and t <= self.se0_last and t - self.se0_since + 1 == LONG_SE0:
+            # The line has been at SE0 for LONG_SE0 consecutive cycles: a bus reset by the input history alone.
+            self.input_resets += 1
+            note = self.se0_note
+            reported = self.reset_edges > note.get("edges_before", 0)
+            for reg, pin in self.PINS:
+                if o[pin] != 0:
+                    self.viol.add("C08.reset_clears", t,
+                                  f"[{self.variant}] {reg} is still {o[pin]} although the host has held SE0 for {LONG_SE0} cycles "
+                                  f"(a bus reset; SE0 began at cycle {self.se0_since}, device suspended at that time: "
+                                  f"{note.get('suspended')}, high-speed capable: {note.get('hs_capable')}, reset_detected "
+                                  f"{'was' if reported else 'was NOT'} pulsed during it); expected 0",
+                                  **self.shape(reg, o[pin]), kind="not_cleared_by_long_se0",
+                                  suspended=bool(note.get("suspended")), hs_capable=bool(note.get("hs_capable")),
+                                  reset_reported=bool(reported))
+                    self.dead = True
+                    return True
+                self.exp[reg] = 0
+                self.win.pop(reg, None)
         if o["reset_detected"]:
             self.resets += 1
             if not self._prev_reset:
@@ -252,7 +395,9 @@ def run(scn):
     variant = cfg["variant"]
     bench = device_bench(DEV_CFG[variant])
     init = dict(IDLE_INIT)
-    init["full_speed_only"] = 1
+    fs_only = int(cfg.get("fs_only", 1))
+    init["full_speed_only"] = fs_only
+    hs_capable = variant == "V2" and not fs_only      # V1 is built full-speed only (always_fs)
     viol = Violations()
     probes = {p: 0 for p in PROBES}
     faults = {}
@@ -260,6 +405,7 @@ def run(scn):
     mon = _Monitor(viol, model, variant)
     ops = scn["ops"]
     outcomes = set()
+    state = {"suspended": False, "after_suspend": False}      # host-side knowledge: > 3 ms idle not yet ended by reset / resume
 
     def fault(kind):
         faults[kind] = faults.get(kind, 0) + 1
@@ -301,27 +447,82 @@ def run(scn):
             if mon.dead:
                 return
             kind = op["op"]
+            if state["suspended"] and kind not in ("reset", "resume", "idle", "suspend"):
+                continue                           # the host sends nothing to a suspended device (e.g. after shrinking)
+            if state["after_suspend"] and kind in ("set", "status", "in", "get_config"):
+                probes["traffic_after_suspend"] += 1
+                state["after_suspend"] = False
             if kind == "idle":
                 yield from h.idle(op["n"])
             elif kind == "sof":
                 yield from h.send(usb2.sof_packet(op["frame"]), info="sof")
                 yield from h.idle(cfg["rest"])
+            elif kind == "suspend":
+                # the bus stays idle (J) for > 3 ms: the device is suspended afterwards (its `suspended` output is only counted)
+                yield from h.idle(op["n"])
+                model.last_event = "suspend"
+                outcomes.add("suspend")
+                state["suspended"] = True
+                if mon.suspended_now:
+                    probes["suspended_reached"] += 1
+            elif kind == "resume":
+                # time-compressed resume signalling: K, a low-speed EOP (SE0 for two low-speed bit times), back to J
+                was = mon.suspended_now
+                h.set_pins(line_state=LINE_K)
+                yield from h.idle(op["n"])
+                h.set_pins(line_state=0)
+                yield from h.idle(max(2, int(round(1.33e-6 * CLOCKS[variant]))))
+                h.set_pins(line_state=h.line_idle)
+                yield from h.idle(cfg["rest"] + 4)
+                model.last_event = "resume"
+                outcomes.add("resume")
+                state["suspended"] = False
+                if was:
+                    probes["resume_from_suspend"] += 1
+                    state["after_suspend"] = True
             elif kind == "reset":
                 before = mon.reset_edges
                 had_pending = model.pending is not None
-                yield from x.bus_reset(op["n"], "se0" if op["kind"] == "se0" else "vbus")
+                is_se0 = op["kind"] == "se0"
+                is_long = is_se0 and op["n"] >= LONG_SE0
+                was_suspended = mon.suspended_now
+                nonzero = bool(model.addr or model.cfg)
+                if is_se0:
+                    mon.se0(h.t + 1, h.t + op["n"], suspended=bool(was_suspended), hs_capable=hs_capable)
+                yield from x.bus_reset(op["n"], "se0" if is_se0 else "vbus")
                 yield from h.idle(SLACK + 2)
-                if mon.reset_edges > before:
-                    fault("bus_reset" if op["kind"] == "se0" else "vbus_loss")
+                if mon.dead:
+                    return
+                reported = mon.reset_edges > before
+                if reported or is_long:
+                    fault("bus_reset" if is_se0 else "vbus_loss")
                     if had_pending:
                         probes["reset_while_pending"] += 1
                         model.stale = model.pend_name()
+                    if is_long:
+                        probes["long_se0_reset"] += 1
+                        probes["long_se0_reset_nonzero_state"] += nonzero
+                    if hs_capable:
+                        probes["reset_hs_capable"] += 1
+                    if was_suspended:
+                        probes["reset_while_suspended"] += 1
+                        probes["reset_while_suspended_hs_capable"] += hs_capable
+                        probes["reset_while_suspended_nonzero_state"] += nonzero
+                        state["after_suspend"] = True
+                    state["suspended"] = False
                     model.prev_addr = model.addr
                     model.addr, model.cfg, model.pending = 0, 0, None
                     model.last_event = "reset"
+                    outcomes.add("reset_suspended" if was_suspended else "reset")
                     outcomes.add("reset")
                 else:
                     outcomes.add("short_se0")
+                if hs_capable and (reported or op["n"] > GLITCH_MAX):
+                    # a high-speed capable device is now (or may be) in its high-speed detection handshake, during which the
+                    # host must not send packets; the handshake is outside this check: the run ends here.  (SE0 of at most
+                    # GLITCH_MAX cycles is below every detection threshold: no reset handling may start, the run goes on.)
+                    outcomes.add("hs_detection_follows")
+                    break
             elif kind == "set":
                 req = op["req"]
                 raw = op["value"] & 0xFFFF
